@@ -207,6 +207,15 @@ def m_unwrap_or(eng, ctx, f, path, args, dty):
     return Fork([(ok, payload), (z3.Not(ok), args[1])])
 
 
+def m_map_or(eng, ctx, f, path, args, dty):
+    e = _enum_of(eng, ctx, args[0])
+    is_some = eng.discr_is(e.discr, 1)
+    payload = e.v.get(1, Agg()).f.get(0, UNIT)
+    if isinstance(e.discr, int):
+        return TailCall(args[2], [payload]) if e.discr == 1 else args[1]
+    return Fork([(is_some, TailCall(args[2], [payload])), (z3.Not(is_some), args[1])])
+
+
 def m_option_copied(eng, ctx, f, path, args, dty):
     e = _enum_of(eng, ctx, args[0])
     if 1 in e.v and 0 in e.v[1].f and isinstance(e.v[1].f[0], Ptr):
@@ -227,14 +236,15 @@ BASE = {
     r"core::num::wrapping_add$": _arith(lambda a, b: a + b),
     r"core::num::wrapping_mul$": _arith(lambda a, b: a * b),
     r"Atomic\w*::new$": m_atomic_new,
-    r"^Result::is_ok$": _is_variant(0),
-    r"^Result::is_err$": _is_variant(1),
-    r"^Option::is_some$": _is_variant(1),
-    r"^Option::is_none$": _is_variant(0),
-    r"^Option::(unwrap|expect)$": m_unwrap(1),
-    r"^Result::(unwrap|expect)$": m_unwrap(0),
-    r"^Option::unwrap_or$": m_unwrap_or,
-    r"^Option::(copied|cloned)$": m_option_copied,
+    r"(^|::)Result::is_ok$": _is_variant(0),
+    r"(^|::)Result::is_err$": _is_variant(1),
+    r"(^|::)Option::is_some$": _is_variant(1),
+    r"(^|::)Option::is_none$": _is_variant(0),
+    r"(^|::)Option::(unwrap|expect)$": m_unwrap(1),
+    r"(^|::)Result::(unwrap|expect)$": m_unwrap(0),
+    r"(^|::)Option::unwrap_or$": m_unwrap_or,
+    r"(^|::)Option::map_or$": m_map_or,
+    r"(^|::)Option::(copied|cloned)$": m_option_copied,
     r"Atomic\w*::load$": m_atomic_load,
     r"Atomic\w*::store$": m_atomic_store,
     r"Atomic\w*::fetch_add$": _rmw("fetch_add", lambda o, v: o + v),
